@@ -142,7 +142,7 @@ def parseHms (cs : List Char) : Option (Nat × List Char) :=
   match fixedDec 2 (cs.take 2), cs.drop 2, fixedDec 2 ((cs.drop 3).take 2), cs.drop 5,
       fixedDec 2 ((cs.drop 6).take 2) with
   | some h, ':' :: _, some mi, ':' :: _, some s =>
-    if h < 24 ∧ mi < 60 ∧ s < 60 then
+    if h < 24 ∧ mi < 60 ∧ s ≤ 60 then      -- `:60` = a leap second, accepted by chrono
       let base := ((h * 60 + mi) * 60 + s) * nsPerSec
       match cs.drop 8 with
       | '.' :: rest =>
@@ -200,6 +200,37 @@ def parseDateTime (s : String) : Option Nat :=
       | none => none
     else none
   | _, _, _, _, _, _ => none
+
+/-! #### Scope of the text parsers
+
+chrono's `FromStr` implementations are far more lenient than the canonical forms (white space – any Unicode white space –
+between and around the fields, one-digit fields, fractions longer than 9 digits, `+0100`, a `UTC` suffix, lower-case `t` / `z`,
+a space instead of `T`, a signed year …).  The model does not chase them: its parsers are AUTHORITATIVE only on texts in scope –
+texts of the canonical shape (`HH:MM[:SS[.f{1,9}]]`, resp. `YYYY-MM-DDTHH:MM:SS[.f{1,9}](Z|±HH:MM)`; the field VALUES may
+be anything, e.g. `25:00:00`, Feb 30, `:60`) and texts without any digit (which no date / time parser accepts).  For any other
+text the driver gives no model answer (tag `prim:out-of-scope`); the implementation is still run (panic-freedom). -/
+
+def shapeIs (pat : List Char) (cs : List Char) : Bool :=
+  cs.length == pat.length && (List.zip pat cs).all fun (p, c) => if p = '9' then isDigit c else p == c
+
+/-- Canonical shape of a time-of-day text. -/
+def timeShape (cs : List Char) : Bool :=
+  shapeIs "99:99".toList cs || shapeIs "99:99:99".toList cs ||
+    (shapeIs "99:99:99.".toList (cs.take 9) && (cs.drop 9).all isDigit && 1 ≤ (cs.drop 9).length && (cs.drop 9).length ≤ 9)
+
+/-- Canonical shape of an RFC 3339 text. -/
+def dateTimeShape (cs : List Char) : Bool :=
+  shapeIs "9999-99-99T".toList (cs.take 11) &&
+    (let rest := cs.drop 11
+     let tz := if rest.getLast? == some 'Z' then 1 else 6
+     let t := rest.take (rest.length - tz)
+     let z := rest.drop (rest.length - tz)
+     (timeShape t && t.length ≥ 8) && (z == ['Z'] || shapeIs "+99:99".toList z || shapeIs "-99:99".toList z))
+
+def noDigit (cs : List Char) : Bool := !cs.any isDigit
+
+def timeTextInScope (s : String) : Bool := timeShape s.toList || noDigit s.toList
+def dateTimeTextInScope (s : String) : Bool := dateTimeShape s.toList || noDigit s.toList
 
 /-- `RouteDateTime::from_range`: a bound that is absent or does not parse is open. -/
 def dateTimeFromRange (start stop : Option String) : Window :=
